@@ -751,6 +751,29 @@ def r4_stateless(program, rep):
                             bad = (e, "%s.%s" % (o[1], o[2]))
             n += 1
             if bad:
+                # a memo whose entries are functions of their keys is
+                # invisible; one whose key leaves out something the value
+                # depends on answers with another call's result
+                from ..memo import memo_verdict
+                small = [(a, b, 0) for a in range(4) for b in range(4)]
+                dom = {}
+                for a_ in formals(fn):
+                    dom[a_] = range(1, 5) if a_ in (
+                        "width", "height", "w", "h") else small
+                verdict, text = memo_verdict(fn, bad[1].rsplit(".", 1)[1],
+                                             dom)
+                if verdict == "ok":
+                    rep.ok("C11-R4", inst, "%s keeps a memo in %s: %s" % (
+                        q, bad[1], text), fn)
+                    continue
+                if verdict == "unknown":
+                    rep.undecided("C11-R4", "%s writes the module-level %s: "
+                                  "%s" % (q, bad[1], text))
+                    continue
+                rep.bad("C11-R4", inst, "writes module state %s" % bad[1],
+                        "%s answers from the module-level %s: %s" % (
+                            q, bad[1], text), bad[0].node)
+                continue
                 rep.bad("C11-R4", inst, "writes module state %s" % bad[1],
                         "%s writes the module-level %s (%s): its result can "
                         "depend on earlier calls" % (q, bad[1], bad[0].text),
